@@ -23,7 +23,7 @@ RULE = ("(a) a battery of several hundred queries over notes, intervals, keys, c
         "class defaults must be unchanged; copies of notes and containers are operated on in both directions. Non-trivial: a history "
         "that mutates a returned list and later queries the same function; a call with a non-empty mutable argument; a script with "
         ">= 2 mutating operations."
-        ' Also: the battery contains every public function of the theory modules (introspection), confusable neighbours and keyword forms; histories repeat a query before modifying its last answer; every memo table that is empty at import is cleared per case; a systematic pass modifies the answer of each battery query and re-asks its neighbourhood; fft.find_notes call sequences whose returned notes are modified between calls; in-place edits of the lists / dictionaries that instances hold (incl. the percussion key map); frequency lookups at and above the top of the table; nested [name, octave(, dynamics)] items as arguments, compared deeply; notes handed out by registered tunings are modified.')
+        ' Also: the battery contains every public function of the theory modules (introspection), confusable neighbours and keyword forms; histories repeat a query before modifying its last answer; every memo table that is empty at import is cleared per case; a systematic pass modifies the answer of each battery query and re-asks its neighbourhood; fft.find_notes call sequences whose returned notes are modified between calls; in-place edits of the lists / dictionaries that instances hold (incl. the percussion key map); frequency lookups at and above the top of the table; nested [name, octave(, dynamics)] items as arguments, compared deeply; notes handed out by registered tunings are modified. One text note given to 2-3 selected tracks of a composition, then eight kinds of in-place edit of one track (the other tracks must not move).')
 ASSUMPTIONS = ["known memo tables are cleared at the start of every case so that a failing history replays from a cold start",
                "intervals.invert may reverse in place and back: the argument must be unchanged after the call",
                "Instrument.set_range and chords.from_shorthand's internal second parameter are outside the battery",
@@ -668,7 +668,35 @@ def check_returned_objects(ctx, case):
     ctx.note_case(len(script) >= 2, ["returned:tuning"])
 
 
-CHECKS = {"returned": check_returned_objects, "history": check_history, "fft": check_fft, "find_notes": check_find_notes, "args": check_args, "siblings": check_siblings, "copies": check_copies}
+def check_fanout(ctx, case):
+    """one call that writes into several separately created objects (a note given as text to a composition with several selected
+    tracks): afterwards the tracks are as independent as before - editing one in place leaves the others alone"""
+    from mingus.containers import Composition, Track
+    k, how, text, reps, victim, edit = case
+    comp = Composition()
+    tracks = [Track() for _ in range(k)]
+    for t in tracks:
+        comp.add_track(t)
+    comp.selected_tracks = list(range(k))
+    for _ in range(reps):
+        if failed(ctx.ok("Composition." + how, comp.add_note if how == "add_note" else comp.__add__, text)):
+            return
+    snap = [_observe(t) for t in tracks]
+    v = tracks[victim % k]
+    edits = [lambda: v.augment(), lambda: v.transpose("3"), lambda: v.bars[0].transpose("5", False), lambda: v.bars[0][0][2].augment(),
+             lambda: v.bars[0][0][2][0].octave_up(), lambda: v.bars[0][0][2][0].set_velocity(3), lambda: v.bars[-1][-1][2].add_note("B-6"),
+             lambda: v.bars[0].empty()]
+    if failed(ctx.ok("edit", edits[edit % len(edits)])):
+        return
+    for i, t in enumerate(tracks):
+        if i != victim % k:
+            ctx.check(_observe(t) == snap[i], "instances/sibling-changed/tracks-of-a-composition",
+                      lambda: "%r given to %d selected tracks with %s; editing track %d in place (edit %d) changed track %d: %r -> %r" % (
+                          text, k, how, victim % k, edit % len(edits), i, snap[i], _observe(t)))
+    ctx.note_case(True, ["fanout:composition"])
+
+
+CHECKS = {"fanout": check_fanout, "returned": check_returned_objects, "history": check_history, "fft": check_fft, "find_notes": check_find_notes, "args": check_args, "siblings": check_siblings, "copies": check_copies}
 
 
 # ---- generators ----------------------------------------------------------------------------------------
@@ -751,6 +779,8 @@ def sub_instances(ctx, shard, n):
     cps = st.tuples(st.sampled_from(["note", "nc"]), st.lists(note, min_size=1, max_size=4, unique_by=lambda x: T.pitch(x[0], x[1])),
                     st.lists(st.integers(0, 40), min_size=1, max_size=6), st.booleans()).map(list)
     ctx.given("copies", check_copies, cps, 400 if ctx.quick else 5000)
+    ctx.enumerate("fanout", check_fanout, [[k, how, text, reps, victim, edit] for k in (2, 3) for how in ("add_note", "plus") for text in ("C", "F#-3")
+                                           for reps in (1, 5) for victim in range(k) for edit in range(8)])
     ret = st.tuples(st.integers(0, 75), st.integers(0, 11), st.lists(st.integers(0, 40), min_size=1, max_size=5)).map(list)
     ctx.given("returned", check_returned_objects, ret, 150 if ctx.quick else 2000)
 
